@@ -114,7 +114,7 @@ namespace
     std::vector<double> dips;      // n+1 values for n segments (continuous dip)
     std::vector<double> kink;      // if not empty: explicit (top, bottom) dip per segment, 2n values (dip may jump between segments)
     std::vector<double> lengths;
-    int shape = 0;                 // 0: thickness 100 km, no truncation; 1: thickness [100,60] km per segment; 2: top truncation +10 km; 3: top truncation -10 km and thinning
+    int shape = 0;                 // 0: thickness 100 km, no truncation; 1: thickness [100,60] km per segment; 2: top truncation +10 km; 3: top truncation -10 km and thinning; 4: top truncation +70 km (faults get the truncation entries as well)
     double min_depth = 0, max_depth = -1;
     double dip_point_distance = -1;   // > 0: the dip point lies this far from the trench (above the feature itself) instead of far away; it only names the side
   };
@@ -133,6 +133,7 @@ namespace
         if (c.shape == 1 || c.shape == 3) { g.thick0 = 1e5 - 4e4 * i / n; g.thick1 = 1e5 - 4e4 * (i + 1) / n; }
         if (c.shape == 2) { g.trunc0 = 1e4; g.trunc1 = 1e4; }
         if (c.shape == 3) { g.trunc0 = -1e4 + 5e3 * i; g.trunc1 = -1e4 + 5e3 * (i + 1); }
+        if (c.shape == 4) { g.trunc0 = 7e4; g.trunc1 = 7e4; }   // more than half of the thickness (a fault is centred on its plane: its membership does not look at the truncation at all)
         t.push_back(g);
       }
     return t;
@@ -168,7 +169,7 @@ namespace
       {
         const Seg &g = tab[i];
         segs += std::string(i ? "," : "") + "{\"length\":" + num(g.length) + ",\"thickness\":[" + num(g.thick0) + "," + num(g.thick1) + "],\"angle\":[" + num(g.dip0) + "," + num(g.dip1) + "]"
-                + (c.fault ? "" : ",\"top truncation\":[" + num(g.trunc0) + "," + num(g.trunc1) + "]") + "}";
+                + ",\"top truncation\":[" + num(g.trunc0) + "," + num(g.trunc1) + "]}";
       }
     segs += "]";
     const double far = c.dip_point_distance > 0 ? c.dip_point_distance : c.spherical ? 40.0 : 5e6;
@@ -305,18 +306,17 @@ namespace
     for (int fault = 0; fault < 2; ++fault)
       {
         // one segment: every (dip0, dip1), every direction and side, every shape
-        for (double d0 : dips) for (double d1 : dips) for (int shape = 0; shape < 4; ++shape)
+        for (double d0 : dips) for (double d1 : dips) for (int shape = 0; shape < 5; ++shape)
               {
-                if (fault && shape >= 2) continue;
                 Config c; c.fault = fault; c.dips = {d0, d1}; c.lengths = {1e5}; c.shape = shape;
                 add(c, th || shape == 0);
               }
         // two segments, continuous dip
         for (double d0 : dips) for (double d1 : dips) for (double d2 : dips) for (int lv = 0; lv < 2; ++lv)
                 {
-                  Config c; c.fault = fault; c.dips = {d0, d1, d2}; c.lengths = lv ? std::vector<double>{1e5, 0.5e5} : std::vector<double>{1e5, 1e5}; c.shape = (rr % (fault ? 2 : 4));
+                  Config c; c.fault = fault; c.dips = {d0, d1, d2}; c.lengths = lv ? std::vector<double>{1e5, 0.5e5} : std::vector<double>{1e5, 1e5}; c.shape = (rr % 5);
                   add(c, false);
-                  if (th) for (int shape = 0; shape < (fault ? 2 : 4); ++shape) { c.shape = shape; add(c, false); }
+                  if (th) for (int shape = 0; shape < 5; ++shape) { c.shape = shape; add(c, false); }
                 }
         // two segments with a dip jump between them (concave and convex kinks), straight and arc pieces
         for (double d0 : dips) for (double d1 : dips)
@@ -326,8 +326,16 @@ namespace
                 {
                   Config c; c.fault = fault; c.lengths = {1e5, 1e5}; c.dips = {d0, d0, d1};
                   c.kink = pat == 0 ? std::vector<double>{d0, d0, d1, d1} : pat == 1 ? std::vector<double>{d0, 0.5*(d0+d1) - 10, d1, d1} : std::vector<double>{d0, d0, d1, d1 + 15};
-                  for (int shape : {0, 3}) { if (fault && shape == 3) continue; c.shape = shape; add(c, false); }
+                  for (int shape : {0, 3}) { c.shape = shape; add(c, false); }
                 }
+            }
+        // dips that differ by a few thousandths of a degree: still an arc (of a very large radius), not a plane
+        for (double d0 : {45.0, 90.0, 20.0}) for (double eps : {0.005, -0.005, 0.002})
+            {
+              Config c; c.fault = fault; c.dips = {d0, d0 + eps}; c.lengths = {3e5}; c.shape = 0;
+              add(c, false);
+              Config c2; c2.fault = fault; c2.dips = {d0, d0 + eps, 60.0}; c2.lengths = {2e5, 1e5}; c2.shape = 0;
+              add(c2, false);
             }
         // the dip point close to the trench, above the feature (it only names the side the feature dips to)
         for (double dd : {2e5, 0.4e5, 1.1e5}) for (double d0 : {30.0, 45.0, 90.0})
@@ -345,7 +353,7 @@ namespace
         if (th)
           for (double d0 : dips) for (double d1 : dips) for (double d2 : dips) for (double d3 : dips)
                   {
-                    Config c; c.fault = fault; c.dips = {d0, d1, d2, d3}; c.lengths = {0.5e5, 1e5, 0.5e5}; c.shape = (rr % (fault ? 2 : 4));
+                    Config c; c.fault = fault; c.dips = {d0, d1, d2, d3}; c.lengths = {0.5e5, 1e5, 0.5e5}; c.shape = (rr % 5);
                     add(c, false);
                   }
       }
